@@ -158,6 +158,20 @@ fn inject(rng: &mut Rng, p: &Project, tree: &mut BTreeMap<String, String>, kind:
             tree.insert(f.clone(), t);
             Some(Injected { file: f, kind: kind.into(), stage: 4 })
         }
+        "directive_cycle" => {
+            // two directive definitions that use each other on their arguments, and a third one
+            // outside the cycle that uses a member of it: rejected by `check` (schema stage)
+            if p.introspection() {
+                return None;
+            }
+            let f = rng.pick(&schema_files).clone();
+            let t = format!(
+                "{}\ndirective @zzPing(a: Int @zzPong) on ARGUMENT_DEFINITION\ndirective @zzPong(b: Int @zzPing) on ARGUMENT_DEFINITION\ndirective @zzUser(c: Int @zzPing) on ARGUMENT_DEFINITION\n",
+                tree[&f].trim_end()
+            );
+            tree.insert(f.clone(), t);
+            Some(Injected { file: f, kind: kind.into(), stage: 2 })
+        }
         "unknown_type" => {
             let mut cands: Vec<&String> = schema_files.iter().filter(|f| tree[*f].split('\n').any(|l| l.starts_with("type ") && l.ends_with('{'))).collect();
             if cands.is_empty() {
@@ -247,6 +261,7 @@ const VIOLATION_KINDS: &[&str] = &[
     "unknown_fragment",
     "unknown_field_in_imported_fragment",
     "unknown_type",
+    "directive_cycle",
     "dup_operation",
     "dangling_import",
     "missing_import_name",
@@ -287,8 +302,10 @@ pub fn gen_scenario(run_seed: u64, variant: &str, tier: Tier) -> E2Scenario {
         // part of the configuration (or all of it) comes from CLI flags
         flag_overrides_pct: match variant {
             "c18" | "c18f" | "arte" | "c17" => 15,
+            "c14" => 12,
             _ => 0,
         },
+        no_config_ok: variant != "c14",
     };
     let project = project::gen_project(&mut rp, &opts);
     let mut tree: BTreeMap<String, String> = project.files().into_iter().collect();
